@@ -22,6 +22,15 @@ RULE = ('generated programs over 7 targets (granularity 1/2/4) with run lengths 
 ASSUMPTIONS = ['byte order inside one address unit of a word-granular target is a per-target constant (big-endian for DSP56000, little-endian otherwise)',
                'family header bytes as tabulated in doc/file-formats.md']
 
+MANIFEST = dict(
+    category='exploration', design_ref='DESIGN.md §4 C04',
+    technique='reference-model monitor + offline conservation checker over the recorded emission event log (hook H3) against the code file read by an independent parser',
+    text='Held on the executions of this run: generated CPU/SEGMENT/ORG/data/reservation/END programs on 7 targets (granularity 1, 2, 4; run lengths around the 512 B '
+         'buffer and 64 KiB record limits, up to ~200 KiB) are compared run-by-run with the code file (independent strict reader); for these and for all golden programs '
+         'every byte traced at emission must appear exactly once, in order, at its address in the file, and every record length field must equal the bytes traced for that record.',
+    note='Trusts vf/pfile.py (written from doc/file-formats.md), the family header table of the manual, and a per-target constant for byte order inside an address unit. '
+         'The conservation half trusts hook H3 (trace written next to the fwrite path, not a second code path).')
+
 # name -> (header id, granularity of CODE, data statement, values per statement max, unit bits, big-endian units, reserve statement, code address limit in units)
 TARGETS = {
     '6502':   (0x11, 1, 'byt', 60, 8, False, 'dfs', 0x10000),
